@@ -51,8 +51,13 @@ def slices (pi : Bytes) : Option (Bytes × Bytes × Bytes) :=
 def proof2Hash (pi : Bytes) : Option Bytes :=
   if pi.length < 32 then none else some (pi.take 32)
 
-/-- `ConsensusHelperImpl.VRFProve2Value`: NO padding before `pi[:32]`. -/
+/-- `ConsensusHelperImpl.VRFProve2Value` (after the `fix:` commit): the bytes of
+    the header value are left-padded to `ProveSize` before `pi[:32]`. -/
 def prove2Value (proveValue : Nat) : Option Nat :=
+  (proof2Hash (tryZeroPadding (ofBig proveValue))).map beToNat
+
+/-- The behaviour before the fix, kept for the record (`prove2Value_unpadded_differs`). -/
+def prove2ValueUnpadded (proveValue : Nat) : Option Nat :=
   (proof2Hash (ofBig proveValue)).map beToNat
 
 /-- The lottery output the qualification rule uses (`calcVrfValueRatio` after padding). -/
